@@ -39,7 +39,7 @@ TEXTS = {
          'Trusted: assumed contract of load_next_page, memcpy recording stubs, CBMC. Not covered: equality of whole batch streams for every batch_size/projection across many calls and pages (history property), FLBA with symbolic type_length.'),
  'C04': ('Function-by-function memory safety / termination of the reader on attacker-controlled metadata: Thrift reader primitives and thrift_skip (bounded recursion depth via ghost depth counter), footer validation on the three open paths (no 32-bit wrap, slice inside the buffer, error struct filled), build_schema / traverse_schema_recursive / count_leaves (work bound by decreases clause, depth <= 256, leaf arrays in bounds via ghost suffix-leaf count), the four page load paths (every offset/size/count checked against file_size before use), carquet_read_dictionary_page, carquet_read_data_page_v1 (bounded), arena allocation, buffer reader.',
          'Trusted: stubs for stdio/mmap, parse/crc/codec callees of the load paths, arena model in schema jobs, CBMC memory model (objects <= 2^40). "Every call sequence on every byte string" as one statement is not expressible; it is decided per function under representation invariants that each producer job establishes or that are listed as assumed.'),
- 'C09': ('Bounds half: Snappy and LZ4 compressors write only inside dst[0..bound), report the true length, refuse smaller capacities without writing; bound arithmetic free of overflow; compress_data allocates exactly the bound; gzip/zstd wrappers pass capacities correctly (library calls assumed). Round trip decompress(compress(x)) == x is not claimed.',
+ 'C09': ('Bounds half: carquet_snappy_compress (whole function, five obligation slices) writes only inside dst[0..capacity) when capacity >= bound, reports *dst_size <= bound, refuses smaller capacities and inputs >= 4 GiB without any write; snappy_write_varint / emit_literal / emit_copy exact costs; compress_bound arithmetic (snappy, lz4, gzip) exact and overflow free; lz4_count; compress_data allocates exactly the bound and passes it; gzip/zstd wrappers pass whole sizes and capacities (>= 4 GiB refused), clamp levels, end the stream on every path. Round trip decompress(compress(x)) == x and the main loop of carquet_lz4_compress are not claimed unless their jobs are live (see evidence).',
          'Trusted: zlib/zstd assumed contracts, CBMC. The functional inverse through the hash-table matcher is out of reach for contracts without a decoder spec function in loop invariants (stated n/a part).'),
  'C10': ('Emitters against spec parsers written from the format documents: snappy_emit_literal / snappy_emit_copy headers parse to the intended (kind, length, offset) for all lengths/offsets, copy-1 only for 4..11 bytes and 11-bit offsets; LZ4 token / extended length / offset emission and end-of-block rules where their jobs are live.',
          'Trusted: specs/snappy_spec.h, specs/lz4_spec.h (reading of the format documents). "Accepts every valid stream" is a statement about the decoder as a function on streams: not claimed.'),
@@ -71,9 +71,9 @@ NA = {
     'C07': 'CBMC contract machinery is sequential (OpenMP pragmas dropped, no schedule quantifier)',
 }
 
-ENABLE = ['C02', 'C04', 'C11', 'C12', 'C13', 'C14', 'C15', 'C16', 'C17', 'C18', 'C19']   # properties whose checks pass on the unchanged tree (filled in as families are integrated)
+ENABLE = ['C02', 'C04', 'C09', 'C10', 'C11', 'C12', 'C13', 'C14', 'C15', 'C16', 'C17', 'C18', 'C19']   # properties whose checks pass on the unchanged tree (filled in as families are integrated)
 
-PENDING = ['C09', 'C10']
+PENDING = []
 
 
 ENABLED = sorted(set(list(CLAIMED) + [p for p in TEXTS if os.path.exists(os.path.join(ROOT, 'evidence', p + '.json.ok'))]))
